@@ -39,7 +39,11 @@ RULE = ("maps are random Kraus families (A_i, B_i) with Gaussian-integer entries
         "map and empty lists. Presentation: every ndarray handed to toqito (each Kraus operator of a list independently, X, rho, Choi matrices, dim arrays) is a "
         "seeded re-presentation of the drawn values (C / Fortran / strided / permuted-stride layout; complex128 with zero imaginary part also as float64 or int64, "
         "float64 integers also as int64; dim arrays keep their integer dtype), so mixed dtypes and layouts occur inside one list; the values and hence all oracles are "
-        "unchanged; after every call the arguments (arrays, list objects, their elements) are compared with a deep snapshot.")
+        "unchanged; after every call the arguments (arrays, list objects, their elements) are compared with a deep snapshot. "
+        "Repeated members: CP families (flat / column / row form, rank 2..4) in which one operator is listed twice, as the SAME ndarray object (identity kept through the "
+        "presentation) or as an equal copy, through apply_channel / kraus_to_choi (sys 2 and 1) / Choi form / partial_channel / the chain, against the Lean model of the listed family. "
+        "Strict floating-point stream (c04_w5.py): choi_to_kraus (rank-deficient and full-rank PSD, Hermitian indefinite, general, low rank), kraus_to_choi, apply_channel, partial_channel, "
+        "natural_representation are evaluated in NumPy's default error state and with invalid / divide / overflow set to 'raise' on the same integer data: the same outcome is demanded.")
 ASSUMPTIONS = [
     "two different polynomial maps of degree <= 3 agree on a random point of a box of side 2^6 per coordinate with probability <= 3/2^6 per case (Schwartz-Zippel); many independent cases per configuration class, and the thorough tier determines maps on the full E_ij basis",
     "choi_to_kraus is judged by the exact residual of its defining relation with tolerance 1e-8*scale (LAPACK eigh/svd)",
@@ -256,6 +260,29 @@ def mix_real(prng, lists, cplx):
             ops[k] = ops[k].real + 0j
 
 
+def present_shared(prng, obj, _memo=None):
+    """`present_obj` that keeps OBJECT identity: an ndarray object listed more than once in the nested list is presented once and
+    the same presented object is listed in every place (a family like [K, L, K] with `K is K`)"""
+    memo = {} if _memo is None else _memo
+    if isinstance(obj, np.ndarray):
+        if id(obj) not in memo:
+            memo[id(obj)] = (obj, present_nd(prng, obj))      # the original is kept alive: its id cannot be reused
+        return memo[id(obj)][1]
+    if isinstance(obj, (list, tuple)):
+        return type(obj)(present_shared(prng, e, memo) for e in obj)
+    return obj
+
+
+def repeat_member(prng, ops, repeat):
+    """in place: ops[j] = ops[i] for two random places i < j -- the SAME ndarray object ("same") or an equal copy ("copy", the control).
+    The family then lists an operator twice: Phi(X) = 2 K X K^dagger + ... (the Lean model sees the listed family)."""
+    if not repeat or len(ops) < 2:
+        return None
+    i, j = sorted(int(x) for x in prng.choice(len(ops), size=2, replace=False))
+    ops[j] = ops[i] if repeat == "same" else ops[i].copy()
+    return [i, j]
+
+
 def impure(ctx, guard, fn, info):
     """purity assertion: the guard was taken before the call on exactly the objects handed to toqito"""
     why = guard.modified()
@@ -389,7 +416,7 @@ def _scale_obj(obj, sc):
     return np.asarray(obj) * sc
 
 
-def check_apply(ctx, din, dout, r, cp, cplx, extra_form=None, basis=None, seed=None):
+def check_apply(ctx, din, dout, r, cp, cplx, extra_form=None, basis=None, seed=None, repeat=None):
     """one map in every representation, one input"""
     seed = int(ctx.rng.integers(1 << 62)) if seed is None else int(seed)
     rng = np.random.default_rng(seed)
@@ -404,6 +431,8 @@ def check_apply(ctx, din, dout, r, cp, cplx, extra_form=None, basis=None, seed=N
     assert_exact(3, BITS, r * di0 * di1)
     prng = case_rng("c04/apply", seed)      # presentation stream: a function of the case seed only
     mix_real(prng, [As] if cp else [As, Bs], cplx)
+    rep_at = repeat_member(prng, As, repeat) if cp else None       # CP list forms: one operator listed twice (same object / equal copy)
+    P = (lambda o: present_shared(prng, o)) if (repeat == "same" and rep_at) else (lambda o: present_obj(prng, o))
     forms = build_forms(As, Bs, cp)
     if extra_form == "triples":
         Cs = [gint(rng, (do1, di1), cplx) for _ in range(r)]
@@ -412,6 +441,8 @@ def check_apply(ctx, din, dout, r, cp, cplx, extra_form=None, basis=None, seed=N
             forms["triples"] = ([[a, b, c] for a, b, c in zip(As, Bs, Cs)], (As, Bs))
     ok = True
     base = {"din": list(din), "dout": list(dout), "rank": r, "cp": cp, "complex": cplx}
+    if rep_at:
+        base.update(repeat=repeat, repeated_places=rep_at)
     nontriv = di0 * di1 > 1 and do0 * do1 > 1 and basis is None
     zX = Z.of(X)
     J_ref = None
@@ -419,7 +450,7 @@ def check_apply(ctx, din, dout, r, cp, cplx, extra_form=None, basis=None, seed=N
         desc = dict(base, fn="apply_channel", form=name)
         ctx.case(desc, nontriv, f"apply/{name}/{'cp' if cp else 'noncp'}/{'square' if di0 == di1 and do0 == do1 else 'rect'}")
         jX, jphi = jmat(X), jkraus(obj)          # exact forms taken from the drawn values; toqito only sees re-presentations of them
-        pX, pobj = present_nd(prng, X), present_obj(prng, obj)
+        pX, pobj = present_nd(prng, X), P(obj)
         guard = Pure(pX, pobj)
         impl = call(apply_channel, pX, pobj)
         model = ctx.lean().ask("c04_apply_kraus", {"X": jX, "phi": jphi})
@@ -459,7 +490,7 @@ def check_apply(ctx, din, dout, r, cp, cplx, extra_form=None, basis=None, seed=N
             continue  # channel_dim documents only the four forms
         desc2 = dict(base, fn="kraus_to_choi", form=name)
         ctx.case(desc2, nontriv, f"kraus_to_choi/{name}")
-        pobj2 = present_obj(prng, obj)
+        pobj2 = P(obj)
         guard = Pure(pobj2)
         implJ = call(kraus_to_choi, pobj2)
         modelJ = ctx.lean().ask("c04_kraus_to_choi", {"phi": jphi, "sys": 2})
@@ -500,7 +531,7 @@ def check_apply(ctx, din, dout, r, cp, cplx, extra_form=None, basis=None, seed=N
         # ---- Kraus -> Choi with sys=1 (map applied to the first half: sum_ij Phi(E_ij) (x) E_ij)
         desc2b = dict(base, fn="kraus_to_choi", form=name, sys=1)
         ctx.case(desc2b, nontriv, f"kraus_to_choi/sys=1/{name}")
-        pobj3 = present_obj(prng, obj)
+        pobj3 = P(obj)
         guard = Pure(pobj3)
         implJ1 = call(kraus_to_choi, pobj3, 1)
         modelJ1 = ctx.lean().ask("c04_kraus_to_choi", {"phi": jphi, "sys": 1})
@@ -673,7 +704,7 @@ def check_choi_to_kraus(ctx, din, dout, kind, cplx, dim_form="mat", seed=None, t
     return ok
 
 
-def check_chain(ctx, din, dout, r, cp, cplx, seed=None):
+def check_chain(ctx, din, dout, r, cp, cplx, seed=None, repeat=None, form="flat"):
     """Kraus -> Choi -> Kraus -> Choi: first and last Choi matrices agree"""
     seed = int(ctx.rng.integers(1 << 62)) if seed is None else int(seed)
     rng = np.random.default_rng(seed)
@@ -683,16 +714,19 @@ def check_chain(ctx, din, dout, r, cp, cplx, seed=None):
     prng = case_rng("c04/chain", seed)
     mix_real(prng, [As], cplx)
     kind = "cp" if cp else ("herm" if (din[0] == din[1] and dout[0] == dout[1] and rng.integers(2)) else "gen")
+    rep_at = repeat_member(prng, As, repeat) if kind == "cp" else None
     if kind == "cp":
-        obj = list(As)
+        obj = list(As) if form == "flat" else ([[k] for k in As] if form == "column" or len(As) == 2 else [list(As)])
     elif kind == "herm":
         obj = [[a, s * a] for a, s in zip(As, sign)]    # Hermiticity preserving, not CP
     else:
         obj = [[a, gint(rng, (do1, di1), cplx, 3)] for a in As]
     desc = {"fn": "chain", "din": list(din), "dout": list(dout), "rank": r, "kind": kind, "complex": cplx}
-    ctx.case(desc, di0 * di1 > 1 and do0 * do1 > 1, f"chain/{kind}")
+    if rep_at:
+        desc.update(repeat=repeat, repeated_places=rep_at, form=form)
+    ctx.case(desc, di0 * di1 > 1 and do0 * do1 > 1, f"chain/{kind}" + (f"/repeated-{repeat}/{form}" if rep_at else ""))
     info = {"case_seed": seed, "function": "kraus_to_choi/choi_to_kraus chain", "args": desc, "phi": jkraus(obj), "theorem": "krausToChoi_of_reproduces / kraus_of_choi_reproduces"}
-    pobj = present_obj(prng, obj)
+    pobj = present_shared(prng, obj) if (repeat == "same" and rep_at) else present_obj(prng, obj)
     guard = Pure(pobj)
     J1 = call(kraus_to_choi, pobj)
     if impure(ctx, guard, "kraus_to_choi", dict(info, presentation=describe(pobj))):
@@ -700,6 +734,16 @@ def check_chain(ctx, din, dout, r, cp, cplx, seed=None):
     if J1[0] != "ok":
         return not ctx.violation(f"chain: kraus_to_choi {J1[0]} {J1[1]}", info)
     J1 = J1[1]
+    if rep_at:
+        # a family that lists an operator twice: the first link of the chain is compared with the Lean model of the LISTED family
+        mJ = ctx.lean().ask("c04_kraus_to_choi", {"phi": jkraus(obj), "sys": 2})
+        try:
+            gm = "reject" not in mJ and mat_eq(J1, mJ)
+        except NotExact:
+            gm = False
+        if not gm:
+            return not ctx.violation(f"chain: kraus_to_choi of a family that lists one operator twice ({repeat} object, places {rep_at}, form {form}) differs from "
+                                     "sum_ij E_ij (x) Phi(E_ij) of the listed family", dict(info, impl=safe_jmat(J1), model=mJ, theorem="krausToChoi_eq_spec"))
     if not np.any(J1):
         return True
     pJ1 = present_nd(prng, J1)
@@ -725,7 +769,7 @@ def check_chain(ctx, din, dout, r, cp, cplx, seed=None):
     return True
 
 
-def check_partial(ctx, rd, cd, sys, dout, r, form, cplx, dim_form="list", sys_default=False, seed=None):
+def check_partial(ctx, rd, cd, sys, dout, r, form, cplx, dim_form="list", sys_default=False, seed=None, repeat=None):
     """partial_channel against the model and against id (x) Phi (x) id computed here"""
     seed = int(ctx.rng.integers(1 << 62)) if seed is None else int(seed)
     rng = np.random.default_rng(seed)
@@ -740,6 +784,7 @@ def check_partial(ctx, rd, cd, sys, dout, r, form, cplx, dim_form="list", sys_de
     rho = gint(rng, (R, C), True)
     prng = case_rng("c04/partial", seed)
     mix_real(prng, [As] if cp else [As, Bs], cplx)
+    rep_at = repeat_member(prng, As, repeat) if cp else None       # before the oracle below is computed: it sees the listed family
     if form == "flat":
         obj = list(As)
     elif form == "column":
@@ -763,6 +808,8 @@ def check_partial(ctx, rd, cd, sys, dout, r, form, cplx, dim_form="list", sys_de
     dim_js = None if dim is None else (np.asarray(dim).tolist())
     desc = {"fn": "partial_channel", "rd": list(rd), "cd": list(cd), "sys": sys, "dout": list(dout), "rank": r, "form": form,
             "complex": cplx, "dim_form": dim_form, "sys_default": sys_default}
+    if rep_at:
+        desc.update(repeat=repeat, repeated_places=rep_at)
     nontriv = rd[t] * cd[t] > 1 and R * C > rd[t] * cd[t]
     ctx.case(desc, nontriv, f"partial/{form}/{'square' if list(rd) == list(cd) and do0 == do1 else 'rect'}/n={n}/{'dim=None' if dim_form == 'none' else 'dim given'}")
     ctx.count(f"partial-target/sys={sys}-of-{n}")
@@ -787,7 +834,7 @@ def check_partial(ctx, rd, cd, sys, dout, r, form, cplx, dim_form="list", sys_de
     else:
         phi_py = obj
         op, margs = "c04_partial_kraus", {"rho": jmat(rho), "phi": jkraus(obj), "sys": sys, "dim": dim_js}
-    prho, pphi = present_nd(prng, rho), present_obj(prng, phi_py)
+    prho, pphi = present_nd(prng, rho), (present_shared(prng, phi_py) if (repeat == "same" and rep_at) else present_obj(prng, phi_py))
     pdim = present_nd(prng, dim, allow_dtype=False) if isinstance(dim, np.ndarray) else dim     # dimension arrays keep their integer dtype
     guard = Pure(prho, pphi, pdim)
     if sys_default:
@@ -928,6 +975,30 @@ def run(ctx, model_ok=True):
     for i in range(24 if ctx.tier == "quick" else 200):
         dd = int(trng.choice([2, 2, 3]))
         check_choi_to_kraus(ctx, (dd, dd), (2, 2), ["herm", "herm", "psd", "gen"][i % 4], bool(trng.integers(2)), "mat", seed=int(trng.integers(1 << 62)), tol=float(trng.choice([0.5, 1.0, 2.0])))
+    # ---- wave 5 (streams of their own: `spawn` does not advance ctx.rng)
+    # (a) CP families that list the SAME ndarray object twice ([K, L, K], [[K],[L],[K]], [[K, L, K]]) and the control with an equal copy:
+    #     Phi(X) = 2 K X K^dagger + L X L^dagger for the listed family, in every representation (Lean model of the listed family)
+    wrng = ctx.rng.spawn(1)[0]
+    sd = lambda: int(wrng.integers(1 << 62))      # noqa: E731
+    check_apply(ctx, (2, 2), (2, 2), 3, True, True, seed=sd(), repeat="same")
+    check_partial(ctx, (2, 2), (2, 2), 2, (2, 2), 3, "flat", True, seed=sd(), repeat="same")
+    for it in range(18 if quick else 180):
+        a, b, r = int(wrng.integers(1, 4)), int(wrng.integers(1, 4)), int(wrng.integers(2, 5))
+        rp = "same" if it % 3 else "copy"
+        check_apply(ctx, (a, a), (b, b), r, True, bool(wrng.integers(4)), seed=sd(), repeat=rp)
+        form = ("flat", "column", "row")[it % 3]
+        n = int(wrng.choice([2, 2, 3]))
+        dims = tuple(int(x) for x in wrng.integers(1, 3, size=n))
+        if int(np.prod(dims)) < 2:
+            dims = (2,) + dims[1:]
+        rr = 3 if (form == "row" and r == 2) else r
+        check_partial(ctx, dims, dims, int(wrng.integers(1, n + 1)), (b, b), rr, form, bool(wrng.integers(4)), str(wrng.choice(["list", "array", "two"])),
+                      seed=sd(), repeat=rp)
+        check_chain(ctx, (a, a), (b, b), r, True, bool(wrng.integers(4)), seed=sd(), repeat=rp, form=form)
+    # (b) value independent of NumPy's floating-point error state
+    import sys as _sys
+    from . import c04_w5
+    c04_w5.run_strict_fp(ctx, _sys.modules[__name__], ctx.rng.spawn(1)[0])
     check_partial(ctx, (2, 3), (2, 3), 1, (2, 2), 2, "choi", True)
     check_partial(ctx, (2, 3, 2), (3, 2, 2), 2, (1, 2), 2, "choi", True, "two")
     check_partial(ctx, (3, 3), (3, 3), 2, (3, 3), 2, "pairs", True, "none", True)
@@ -1069,14 +1140,18 @@ def replay(ctx, rec):
     sd = rec.get("case_seed")
     fn = a.get("fn")
     if fn in ("apply_channel", "kraus_to_choi"):
-        check_apply(ctx, tuple(a["din"]), tuple(a["dout"]), a["rank"], a["cp"], a["complex"], "triples" if a.get("form") == "triples" else None, seed=sd)
+        check_apply(ctx, tuple(a["din"]), tuple(a["dout"]), a["rank"], a["cp"], a["complex"], "triples" if a.get("form") == "triples" else None, seed=sd, repeat=a.get("repeat"))
     elif fn == "choi_to_kraus":
         check_choi_to_kraus(ctx, tuple(a["din"]), tuple(a["dout"]), a["kind"], a["complex"], a["dim_form"], seed=sd)
     elif fn == "chain":
-        check_chain(ctx, tuple(a["din"]), tuple(a["dout"]), a["rank"], a["kind"] == "cp", a["complex"], seed=sd)
+        check_chain(ctx, tuple(a["din"]), tuple(a["dout"]), a["rank"], a["kind"] == "cp", a["complex"], seed=sd, repeat=a.get("repeat"), form=a.get("form", "flat"))
     elif fn == "partial_channel":
-        check_partial(ctx, tuple(a["rd"]), tuple(a["cd"]), a["sys"], tuple(a["dout"]), a["rank"], a["form"], a["complex"], a["dim_form"], a["sys_default"], seed=sd)
+        check_partial(ctx, tuple(a["rd"]), tuple(a["cd"]), a["sys"], tuple(a["dout"]), a["rank"], a["form"], a["complex"], a["dim_form"], a["sys_default"], seed=sd, repeat=a.get("repeat"))
     elif fn == "natural_representation":
         check_natural(ctx, a["d_in"], a["d_out"], a["rank"], a["complex"], seed=sd)
+    elif fn == "strict_fp" and sd is not None:
+        import sys as _sys
+        from . import c04_w5
+        c04_w5.check_strict_fp(ctx, _sys.modules[__name__], a["kind"], a["complex"], sd)
     elif fn == "channel_dim":
         check_channel_dim(ctx, tuple(a["din"]), tuple(a["dout"]), a["rank"], a["form"], a["dim_form"], a["allow_rect"], a["mismatch"], seed=sd)
